@@ -200,6 +200,58 @@ def gen_fanin_history(seed, rng):
     return dict(seed=seed, world=world, ops=ops, sched=sc, tick=rng.choice([1.0, 0.3, 0.001])), rng
 
 
+def gen_chain_history(seed, rng):
+    """The canonical repair scenario: a consistent state of a chain of stored values (with unstored links and side
+    branches), one perturbation in the middle of it (a stored value deleted, its code changed, a source updated,
+    fresh_time advanced), then the run under test."""
+    nodes, stores = [], {}
+
+    def store():
+        name = f"s{len(stores)}"
+        stores[name] = dict(flavour=rng.choice(["plain", "plain", "norm"]), cls=rng.choice(["A", "B"]))
+        return name
+
+    def call(args, stored=False, deps=(), dur=0.0):
+        n = dict(id=len(nodes), kind="call", args=[["n", a] for a in args], kwargs=[], deps=sorted(deps), scope=[],
+                 dur=dur, ret="val", fname=rng.choice(["f", "g", "h"]), depth=0)
+        if stored:
+            n["store"] = store()
+            n["add_depth"] = 0
+        nodes.append(n)
+        return n["id"]
+
+    srcs = []
+    for _ in range(rng.randrange(1, 3)):
+        nodes.append(dict(id=len(nodes), kind="src", store=store(), deps=[], scope=[], depth=0))
+        srcs.append(nodes[-1]["id"])
+    prev, stored_ids = rng.choice(srcs), []
+    for _ in range(rng.randrange(2, 5)):
+        if rng.random() < 0.3:
+            prev = call([prev])                                   # unstored link
+        extra = [rng.choice(srcs)] if rng.random() < 0.3 else []
+        prev = call([prev] + extra, stored=True, dur=rng.choice([0.0, 0.0, 1.0]))
+        stored_ids.append(prev)
+        if rng.random() < 0.3:
+            call([prev], stored=rng.random() < 0.5)               # side branch
+    world = dict(nodes=nodes, stores=stores, late_deps=[], output=rng.choice([None, ["n", prev], ["n", stored_ids[0]]]))
+    cfg = dict(max_workers=rng.choice([1, 2, 3]), scheduler=rng.choice([None, "default", "random"]), max_errors=0,
+               retry=None, stale_workers=rng.choice([None, 1, 2]), output=rng.random() < 0.6, use_fresh=True)
+    ops = [dict(op="run", cfg=dict(cfg))]
+    for _ in range(rng.randrange(1, 3)):
+        k = rng.choice(["delete", "delete", "bump", "bump", "update", "fresh"])
+        victim = nodes[rng.choice(stored_ids[:-1] or stored_ids)]
+        if k == "delete":
+            ops.append(dict(op="delete", store=victim["store"]))
+        elif k == "bump":
+            ops.append(dict(op="bump", node=victim["id"]))
+        elif k == "update":
+            ops.append(dict(op="update", store=nodes[rng.choice(srcs)]["store"]))
+        else:
+            ops.append(dict(op="fresh"))
+    ops.append(dict(op="run", cfg=dict(cfg), final=True))
+    return dict(seed=seed, world=world, ops=ops, sched=worldgen.gen_sched(rng), tick=rng.choice([1.0, 0.3, 0.001])), rng
+
+
 def stress_stale_check(desc, rng):
     """Stress the (multi-threaded) stale check itself: >= 2 stale-check workers, instruction-level pre-emption inside
     the transformation code and frequent switches in the run under test (the last operation); the history before it
